@@ -64,6 +64,10 @@ def main():
             if rc != 0: print("RESTORE FAILED", out)
             rc, out = sh("git -C /repo status --short")
             meta["repo_clean_after"] = (out.strip() == "")
+            # what the checks wrote while /repo was mutated (evidence of the mutated run, Gen files regenerated from the
+            # mutated source) must not stay in the tree: back to the committed files, Gen regenerated from /repo as it is now
+            sh("git -C %s checkout -- %s coq/Gen" % (V, " ".join("evidence/%s.json" % q for q in [prop] + extra)))
+            sh("cd %s && run/bin/extract -repo /repo -out coq/Gen -status run/extract_status.json" % V)
     meta["ran"] = ["git -C /repo apply patch.diff", "/verif/baseline.sh", "./check " + " ".join([prop] + extra), "git -C /repo apply -R patch.diff"]
     json.dump(meta, open(meta_p, "w"), indent=1)
     print(json.dumps({k: meta[k] for k in ("suite_passes_with_change_confirmed", "caught_by", "check_results", "repo_clean_after")}, indent=1))
